@@ -200,6 +200,14 @@ class TupV(ListV):
         return "Tuple%r" % (self.items,)
 
 
+class IterV(ListV):
+    """an iterator (iter(..), a generator, map / filter / zip / enumerate / reversed): `items` is what it has not
+    handed out yet; next() and loops take from the front"""
+
+    def __repr__(self):
+        return "Iterator%r" % (self.items,)
+
+
 class RepeatV(ListV):
     """itertools.repeat(x) without a count: endless; usable only where something else bounds it (zip)"""
 
@@ -1203,7 +1211,7 @@ class Ev:
                 env["__yield__"] = []
             r = self.block(fn.body, env, f.mod)
             if is_gen:
-                return ListV(env["__yield__"])  # a generator is modelled by the list of what it yields
+                return IterV(env["__yield__"])  # a generator is modelled by the list of what it yields
             out = r[1] if r is not None else NONE
             if memo_key is not None:
                 self.memo_calls[memo_key] = out
@@ -1502,6 +1510,10 @@ class Ev:
         raise AnalysisError("statement %s at line %d is not modelled" % (type(st).__name__, st.lineno))
 
     def iterate(self, v, node):
+        if isinstance(v, IterV):
+            out = list(v.items)
+            del v.items[:]  # an iterator is used up by whoever walks it
+            return out
         if isinstance(v, ListV):
             return list(v.items)
         if isinstance(v, ClassRef) and v.cls.is_enum:
@@ -1740,7 +1752,7 @@ class Ev:
         if isinstance(e, (ast.ListComp, ast.GeneratorExp)):
             out = []
             self.comp(e.generators, env, mod, lambda e2: out.append(self.ev(e.elt, e2, mod)))
-            return ListV(out)
+            return ListV(out) if isinstance(e, ast.ListComp) else IterV(out)
         if isinstance(e, ast.DictComp):
             out = {}
 
@@ -1910,12 +1922,12 @@ class Ev:
             return (ListV if name == "list" else TupV)(self.iterate(args[0], e) if args else [])
         if name == "enumerate":
             start = args[1] if len(args) > 1 else kwargs.get("start", 0)
-            return ListV([TupV([i + start, x]) for i, x in enumerate(self.iterate(args[0], e))])
+            return IterV([TupV([i + start, x]) for i, x in enumerate(self.iterate(args[0], e))])
         if name == "zip":
             cols = [self.iterate(a, e) for a in args]
             if cols and all(isinstance(a, RepeatV) for a in args):
                 raise Undecided("zip of endless iterables only")
-            return ListV([TupV(list(t)) for t in zip(*cols)])
+            return IterV([TupV(list(t)) for t in zip(*cols)])
         if name == "divmod" and len(args) == 2:
             a, b = args
             if all(isinstance(x, int) and not isinstance(x, bool) for x in args):
@@ -1987,6 +1999,14 @@ class Ev:
                 return Builtin("NoneType")
             raise AnalysisError("type(%r) at line %d" % (args[0], e.lineno))
         if name == "next" and args:
+            if isinstance(args[0], IterV):
+                if args[0].items:
+                    return args[0].items.pop(0)  # the iterator moves on
+                if len(args) > 1:
+                    return args[1]
+                raise _Raise(e, "StopIteration", "StopIteration")
+            if isinstance(args[0], ListV) and not self.outside_value(args[0]):
+                raise _Raise(e, "%s object is not an iterator" % ("tuple" if isinstance(args[0], TupV) else "list"), "TypeError")
             items = self.iterate(args[0], e)
             if items:
                 return items[0]
@@ -1994,9 +2014,9 @@ class Ev:
                 return args[1]
             raise _Raise(e, "StopIteration", "StopIteration")
         if name == "iter" and len(args) == 1:
-            return ListV(self.iterate(args[0], e))
+            return args[0] if isinstance(args[0], IterV) else IterV(self.iterate(args[0], e))
         if name == "reversed" and len(args) == 1:
-            return ListV(list(reversed(self.iterate(args[0], e))))
+            return IterV(list(reversed(self.iterate(args[0], e))))
         if name == "print":
             return NONE
         if name == "input":
@@ -2048,8 +2068,8 @@ class Ev:
             f = args[0]
             items = [list(t) for t in zip(*[self.iterate(a, e) for a in args[1:]])]
             if name == "map":
-                return ListV([self.apply(f, it, {}, e, None) for it in items])
-            return ListV([it[0] for it in items if (self.truth(it[0], e) if isinstance(f, NoneT) else self.truth(self.apply(f, it, {}, e, None), e))])
+                return IterV([self.apply(f, it, {}, e, None) for it in items])
+            return IterV([it[0] for it in items if (self.truth(it[0], e) if isinstance(f, NoneT) else self.truth(self.apply(f, it, {}, e, None), e))])
         if name == "sorted" and (not kwargs or set(kwargs) <= {"key", "reverse"}) and kwargs:
             items = self.iterate(args[0], e)
             keyf = kwargs.get("key")
@@ -2211,29 +2231,29 @@ class Ev:
                 return ListV([args[0]] * args[1])
             return RepeatV(args[0])
         if name in ("itertools.starmap", "starmap") and len(args) == 2:
-            return ListV([self.apply(args[0], list(self.iterate(x, e)), {}, e, None) for x in self.iterate(args[1], e)])
+            return IterV([self.apply(args[0], list(self.iterate(x, e)), {}, e, None) for x in self.iterate(args[1], e)])
         if name in ("itertools.compress", "compress") and len(args) == 2:
             data, sel = self.iterate(args[0], e), self.iterate(args[1], e)
-            return ListV([d for d, s_ in zip(data, sel) if self.truth(s_, e)])
+            return IterV([d for d, s_ in zip(data, sel) if self.truth(s_, e)])
         if name in ("itertools.islice", "islice") and len(args) in (2, 3) and all(isinstance(x, int) or x is NONE for x in args[1:]):
             b = [None if x is NONE else x for x in args[1:]]
-            return ListV(self.iterate(args[0], e)[slice(*b)])
+            return IterV(self.iterate(args[0], e)[slice(*b)])
         if name in ("itertools.filterfalse", "filterfalse") and len(args) == 2:
-            return ListV([x for x in self.iterate(args[1], e) if not self.truth(x if args[0] is NONE else self.apply(args[0], [x], {}, e, None), e)])
+            return IterV([x for x in self.iterate(args[1], e) if not self.truth(x if args[0] is NONE else self.apply(args[0], [x], {}, e, None), e)])
         if name in ("itertools.zip_longest", "zip_longest") and args:
             import itertools as _it
 
-            return ListV([TupV(list(t)) for t in _it.zip_longest(*[self.iterate(a, e) for a in args], fillvalue=kwargs.get("fillvalue", NONE))])
+            return IterV([TupV(list(t)) for t in _it.zip_longest(*[self.iterate(a, e) for a in args], fillvalue=kwargs.get("fillvalue", NONE))])
         if name in ("itertools.product", "product") and args and not kwargs:
             import itertools as _it
 
-            return ListV([TupV(list(t)) for t in _it.product(*[self.iterate(a, e) for a in args])])
+            return IterV([TupV(list(t)) for t in _it.product(*[self.iterate(a, e) for a in args])])
         if name in ("itertools.accumulate", "accumulate") and len(args) == 1:
             out, acc = [], None
             for i, x in enumerate(self.iterate(args[0], e)):
                 acc = x if i == 0 else self.binop(ast.Add(), acc, x, e)
                 out.append(acc)
-            return ListV(out)
+            return IterV(out)
         if name in ("functools.reduce", "reduce") and len(args) in (2, 3):
             items = self.iterate(args[1], e)
             if len(args) == 3:
@@ -2249,7 +2269,7 @@ class Ev:
             start = args[0] if args else 0
             step = args[1] if len(args) > 1 else 1
             if isinstance(start, int) and isinstance(step, int):
-                return ListV([start + i * step for i in range(64)])  # a long enough prefix of the endless sequence
+                return IterV([start + i * step for i in range(64)])  # a long enough prefix of the endless sequence
             raise Undecided("itertools.count(%r)" % (start,))
         if name in ("functools.partial", "partial") and args:
             return PartialV(args[0], args[1:], kwargs)
@@ -2273,9 +2293,9 @@ class Ev:
             d.default = args[0] if args else None
             return d
         if name in ("itertools.chain", "chain"):
-            return ListV([x for a in args for x in self.iterate(a, e)])
+            return IterV([x for a in args for x in self.iterate(a, e)])
         if name in ("itertools.chain.from_iterable", "chain.from_iterable"):
-            return ListV([x for a in self.iterate(args[0], e) for x in self.iterate(a, e)])
+            return IterV([x for a in self.iterate(args[0], e) for x in self.iterate(a, e)])
         if name == "copy.deepcopy" and len(args) >= 1:
             memo = {}
 
